@@ -449,6 +449,12 @@ class SymCtx:
         f = listing.meta["filter"]
         return IntV(f["cnt"](Z(k) - f["lo"]))
 
+    def pos(self, p, v):
+        """the position of the value v in the permutation p (the ghost inverse of a value known to be a permutation)"""
+        g = p.meta["ginv"]
+        out = g(IntV(Z(v)))
+        return out if isinstance(out, V) else IntV(Z(out))
+
     def wsum(self, name, lo, hi, term):
         """sum(term(i) for i in range(lo, hi))  as a RECURSIVELY DEFINED spec function (one per name and run):
         WS(0) = 0, WS(k+1) = WS(k) + term(lo+k)  (well-founded recursion: conservative).  The value is registered
@@ -843,6 +849,9 @@ class RunCtx:
 
     def count_upto(self, listing, k):
         return sum(1 for i in listing.indices if i < k)
+
+    def pos(self, p, v):
+        return list(p).index(v)
 
     def wsum(self, name, lo, hi, term):
         return sum(term(i) for i in range(lo, hi))
